@@ -38,3 +38,6 @@ add("C12", "exploration", "bounded-exhaustive enumeration of ranges x N x direct
 add("C13", "exploration", "bounded-exhaustive enumeration of symbol lists x column lists through DataService.Query, differential against single-symbol queries",
     "every ordered subset of 3 same-schema symbols (also with a missing symbol, with a retyped symbol, and '*') x every ordered column tuple of length 0-3 over {Open,Close,Volume,Nope}, fixed and variable buckets; per symbol the rows, column set and values must equal the single-symbol query",
     TB + "; UTC", "seqmc")
+add("C14", "exploration", "bounded-exhaustive enumeration of (bucket schema, input schema, request shape) against a conversion reference",
+    "all 100 type pairs (quick: diagonal + 3 rows/columns) x 27 schema relations (same, missing, extra, renamed, reordered, each column retyped to each type) x request shapes (alone / with a well-formed bucket processed before / after); boundary values restricted to conversions the Go spec defines; rejected requests are followed by another flush to expose queued leftovers",
+    TB + "; UTC", "seqmc")
